@@ -34,6 +34,9 @@ type Case struct {
 	// including module does (1), those submodules in turn including one more with yet another binding (2); the bindings
 	// of an included submodule are its own and must not show in the module
 	SubClash int `json:"subclash,omitempty"`
+	// SkipUnknown: compiled with the option that tolerates references into modules that are not loaded; every module
+	// is loaded here, so nothing changes: an unbound prefix is still an error
+	SkipUnknown bool `json:"skipunknown,omitempty"`
 }
 
 type exprSpec struct {
@@ -122,6 +125,7 @@ func genCase(t *rapid.T) Case {
 	}
 	c.SubClash = []int{0, 0, 1, 2}[rapid.IntRange(0, 3).Draw(t, "subclash")]
 	c.OwnClash = rapid.IntRange(0, 2).Draw(t, "ownclash") == 0
+	c.SkipUnknown = rapid.IntRange(0, 3).Draw(t, "skipunknown") == 0
 	return c
 }
 
@@ -362,7 +366,7 @@ func checkCase(c Case) fw.Outcome {
 		out.Skip = true
 		return out
 	}
-	res := sgc.Compile(mods, sgc.Opts{Features: sgc.AllFeatures{}})
+	res := sgc.Compile(mods, sgc.Opts{Features: sgc.AllFeatures{}, SkipUnknown: c.SkipUnknown})
 	var texts []string
 	defText := ""
 	for _, m := range mods {
@@ -533,6 +537,8 @@ type EmbCase struct {
 	Inner     c04.Case `json:"inner"`
 	Carrier   string   `json:"carrier"`   // must | when | path
 	Placement string   `json:"placement"` // direct grouping-unused grouping-remote typedef-unused submodule augment
+	// SkipUnknown: see Case
+	SkipUnknown bool `json:"skipunknown,omitempty"`
 }
 
 func genEmb(t *rapid.T) EmbCase {
@@ -550,6 +556,7 @@ func genEmb(t *rapid.T) EmbCase {
 		c.Carrier = []string{"must", "when"}[rapid.IntRange(0, 1).Draw(t, "embcarrier")]
 	}
 	c.Placement = pl[rapid.IntRange(0, len(pl)-1).Draw(t, "embplacement")]
+	c.SkipUnknown = rapid.IntRange(0, 3).Draw(t, "embskipunknown") == 0
 	return c
 }
 
@@ -625,7 +632,7 @@ func checkEmb(c EmbCase) fw.Outcome {
 		mods = append(mods, m2)
 		definer = "m2"
 	}
-	res := sgc.Compile(mods, sgc.Opts{Features: sgc.AllFeatures{}})
+	res := sgc.Compile(mods, sgc.Opts{Features: sgc.AllFeatures{}, SkipUnknown: c.SkipUnknown})
 	var texts []string
 	for _, m := range mods {
 		texts = append(texts, m.Text())
